@@ -6,6 +6,10 @@ VERIF = os.path.dirname(os.path.dirname(os.path.abspath(__file__)))
 TECH = "deterministic simulation with fault injection"
 
 CHECKS = {
+ "C02": dict(cat="exploration", ref="5 C02",
+   text="generated histories (register, duplicate, liveness flips, time, sweep) over 2-5 clients whose phantoms collide, with connects that are genuine flights or near misses (other phantom, other transport / prefix id / obfs4 handshake with the same secret, rejected or swept registration, flipped tag bits, truncation, random) through the real station; a reference registry decides must-reject / must-match and the dial seam attributes a match to one registration by its unique covert address",
+   note="trusted: reference registry model, simnet, synctest clock; expired-not-yet-swept and re-registration after rejection are don't-cares; byte-stream space is sampled",
+   tech=TECH + " (history generation through the real station, reference model, dial-seam attribution)"),
  "C03": dict(cat="exploration", ref="5 C03",
    text="generated probe streams (random, constant fills, static prefixes + garbage, look-alikes, bit-flipped genuine flights of registered clients, threshold lengths) under generated segmentation, pacing and prober behaviour against the real connection handler, transports and registry; monitors: no byte written, no return before 5 s / after 10 s, handler keeps reading; every run is repeated as a twin with random content and must react identically",
    note="trusted: simnet, synctest clock, seamgen overlay; the accept loop / original-destination lookup of handleNewConn is re-implemented by the harness; input space is sampled",
